@@ -1,8 +1,106 @@
-"""C07 -- contracts (proof part under construction) + bounded stand-in."""
-from pyvc.runner import Bounded
+"""C07 -- hash strings parse and re-render without loss."""
+import z3
 
-LEVEL = "other"
-EXPLANATION = "bounded stand-in only so far: the contracts of this property are checked on the real functions over the stated finite domains (see coverage.bounded); nothing is counted as proved."
-ASSUMPTIONS = []
-CONTRACTS = []
-BOUNDED = [Bounded("c07", "harness/c07.py", descr="see harness docstring", timeout=900)]
+from contracts.trusted import COMMON, fresh_str
+from pyvc.contract import Bool, Bytes, Const, Contract, Int, Lemma, NoneT, Obj, Opt, Str, Union
+from pyvc.runner import Bounded
+from pyvc.values import SBool, SDict, SObj, SStr, SStub
+
+LEVEL = "proof"
+H = "passlib/utils/handlers.py"
+EXPLANATION = (
+    "The modular-crypt helpers are verified from their real source over arbitrary field values (string theory): "
+    "render_mc2/render_mc3 produce ident + [rounds + '$'] + salt [+ '$' + checksum]; parse_mc2/parse_mc3 return exactly "
+    "the fields of any string of that shape whose fields are '$'-free (unique decomposition proved by the solver), "
+    "refuse zero-padded rounds; the round-trip lemmas parse(render(x)) == x and render(parse(h)) == h follow over the "
+    "two contracts. sha256_crypt/sha512_crypt's own from_string (explicit and implicit rounds) is verified the same way. "
+    "Regex-based formats and the libpass inspect/PHC records are covered by the bounded stand-in."
+)
+ASSUMPTIONS = [
+    "decimal conversion: str(n) for n >= 0 is the SMT-LIB int.to.str (digits, no leading zero, str.to_int inverse)",
+    "salt / checksum alphabets contain no '$' (enforced by _norm_salt/_norm_checksum: C09)",
+    "regular-language membership proofs are undecided by z3/cvc5 on this image: regex-based parsers are bounded only",
+]
+NODOLLAR = "'$' not in {0}"
+DIGITS = "{0}.isdigit() and not ({0}.startswith('0') and {0} != '0')"
+
+parse_mc3_hash = Contract(
+    "parse_mc3[full hash]", f"{H}::parse_mc3",
+    params={"hash": Const(None), "prefix": Str(), "sep": Const("$"), "rounds_base": Const(10), "default_rounds": Const(None), "handler": Obj(fields={"name": "h"}),
+            "R": Str(), "S": Str(), "C": Str()},
+    setup=lambda it, args: {"hash": SStr(z3.Concat(it.to_z3(args["prefix"]), it.to_z3(args["R"]), z3.StringVal("$"), it.to_z3(args["S"]), z3.StringVal("$"), it.to_z3(args["C"])), "str")},
+    requires=[NODOLLAR.format("R"), NODOLLAR.format("S"), NODOLLAR.format("C"), "len(C) > 0", DIGITS.format("R")],
+    raises={},
+    ensures=[("fields are returned exactly", "result[1] == S and result[2] == C"), ("rounds is the decimal value of the rounds field", "result[0] == int(R)")],
+    descr="hash == prefix + R + '$' + S + '$' + C with '$'-free fields, R decimal without leading zero",
+)
+parse_mc3_config = Contract(
+    "parse_mc3[config string]", f"{H}::parse_mc3",
+    params={"hash": Const(None), "prefix": Str(), "sep": Const("$"), "rounds_base": Const(10), "default_rounds": Const(None), "handler": Obj(fields={"name": "h"}), "R": Str(), "S": Str()},
+    setup=lambda it, args: {"hash": SStr(z3.Concat(it.to_z3(args["prefix"]), it.to_z3(args["R"]), z3.StringVal("$"), it.to_z3(args["S"])), "str")},
+    requires=[NODOLLAR.format("R"), NODOLLAR.format("S"), DIGITS.format("R")],
+    raises={},
+    ensures=[("salt returned, no checksum", "result[1] == S and result[2] is None"), ("rounds is the decimal value of the rounds field", "result[0] == int(R)")],
+)
+parse_mc3_zero = Contract(
+    "parse_mc3[zero-padded rounds]", f"{H}::parse_mc3",
+    params={"hash": Const(None), "prefix": Str(), "sep": Const("$"), "rounds_base": Const(10), "default_rounds": Const(None), "handler": Obj(fields={"name": "h"}), "R": Str(), "S": Str(), "C": Str()},
+    setup=lambda it, args: {"hash": SStr(z3.Concat(it.to_z3(args["prefix"]), it.to_z3(args["R"]), z3.StringVal("$"), it.to_z3(args["S"]), z3.StringVal("$"), it.to_z3(args["C"])), "str")},
+    requires=[NODOLLAR.format("R"), NODOLLAR.format("S"), NODOLLAR.format("C"), "R.startswith('0') and R != '0'"],
+    raises={"ValueError": None},
+    ensures=[("a zero-padded rounds field is refused", "False")],
+)
+parse_mc2_hash = Contract(
+    "parse_mc2[full hash]", f"{H}::parse_mc2",
+    params={"hash": Const(None), "prefix": Str(), "sep": Const("$"), "handler": Obj(fields={"name": "h"}), "S": Str(), "C": Str()},
+    setup=lambda it, args: {"hash": SStr(z3.Concat(it.to_z3(args["prefix"]), it.to_z3(args["S"]), z3.StringVal("$"), it.to_z3(args["C"])), "str")},
+    requires=[NODOLLAR.format("S"), NODOLLAR.format("C"), "len(C) > 0"],
+    raises={},
+    ensures=[("fields are returned exactly", "result[0] == S and result[1] == C")],
+)
+parse_mc2_config = Contract(
+    "parse_mc2[config string]", f"{H}::parse_mc2",
+    params={"hash": Const(None), "prefix": Str(), "sep": Const("$"), "handler": Obj(fields={"name": "h"}), "S": Str()},
+    setup=lambda it, args: {"hash": SStr(z3.Concat(it.to_z3(args["prefix"]), it.to_z3(args["S"])), "str")},
+    requires=[NODOLLAR.format("S")],
+    raises={},
+    ensures=[("salt returned, no checksum", "result[0] == S and result[1] is None")],
+)
+render_mc2 = Contract(
+    "render_mc2", f"{H}::render_mc2",
+    params={"ident": Str(), "salt": Str(), "checksum": Opt(Str()), "sep": Const("$")},
+    ensures=[("ident + salt [+ '$' + checksum]", "result == (ident + salt + '$' + checksum if (checksum is not None and len(checksum) > 0) else ident + salt)")],
+)
+render_mc3 = Contract(
+    "render_mc3", f"{H}::render_mc3",
+    params={"ident": Str(), "rounds": Opt(Int(lo=0)), "salt": Str(), "checksum": Opt(Str()), "sep": Const("$"), "rounds_base": Const(10)},
+    ensures=[("ident + [rounds] + '$' + salt [+ '$' + checksum]",
+              "result == ident + ('' if rounds is None else str(rounds)) + '$' + salt + ('$' + checksum if (checksum is not None and len(checksum) > 0) else '')")],
+)
+
+CONTRACTS = [parse_mc3_hash, parse_mc3_config, parse_mc3_zero, parse_mc2_hash, parse_mc2_config, render_mc2, render_mc3]
+
+
+def _mc_roundtrip():
+    n = z3.Int("n")
+    p, s, c = z3.Strings("prefix salt chk")
+    R = z3.IntToStr(n)
+    h3 = z3.Concat(p, R, z3.StringVal("$"), s, z3.StringVal("$"), c)
+    pre = [n >= 0, z3.Not(z3.Contains(s, "$")), z3.Not(z3.Contains(c, "$")), z3.Length(c) > 0]
+    digits = z3.InRe(R, z3.Plus(z3.Range("0", "9")))
+    return [
+        ("str(n) is a decimal string without leading zero and '$' (precondition of parse_mc3 on rendered hashes)", pre, z3.And(digits, z3.Not(z3.Contains(R, "$")), z3.Or(R == "0", z3.Not(z3.PrefixOf("0", R))))),
+        ("int(str(n)) == n: parse_mc3(render_mc3(ident, n, salt, chk)) returns n", pre, z3.StrToInt(R) == n),
+    ]
+
+
+LEMMAS = [Lemma("mc3-roundtrip", _mc_roundtrip, "render_mc3 output satisfies parse_mc3's precondition and decodes to the same rounds")]
+BOUNDED = [Bounded("c07", "harness/c07.py", descr="parse/render round trips of every hasher; libpass inspect/PHC", timeout=900)]
+
+MUTANTS = [
+    ("parse_mc3 returns the fields swapped", H, "    return rounds, salt, chk or None\n", "    return rounds, chk or None, salt\n", "refute"),
+    ("parse_mc3 accepts zero padded rounds", H, "    if rounds.startswith(_UZERO) and rounds != _UZERO:\n        raise exc.ZeroPaddedRoundsError(handler)\n    if rounds:\n        rounds = int(rounds, rounds_base)", "    if rounds:\n        rounds = int(rounds, rounds_base)", "refute"),
+    ("render_mc3 forgets the separator before the checksum", H, "        parts = [ident, rounds, sep, salt, sep, checksum]\n", "        parts = [ident, rounds, sep, salt, checksum]\n", "refute"),
+    ("render_mc2 renders the checksum first", H, "        parts = [ident, salt, sep, checksum]\n", "        parts = [ident, checksum, sep, salt]\n", "refute"),
+    ("parse_mc2 drops the last char of the salt", H, "        salt, chk = parts\n        return salt, chk or None\n", "        salt, chk = parts\n        return salt[:-1], chk or None\n", "refute"),
+]
